@@ -2054,6 +2054,12 @@ private:
    /// changes bounds of column \p i to \p lower and \p upper and adjusts basis
    void _changeBoundsReal(int i, const R& lower, const R& upper);
 
+   /// makes the stored (not loaded) basis status of row \p i fit the current sides of the row
+   void _fitStoredRowStatus(int i);
+
+   /// makes the stored (not loaded) basis status of column \p i fit the current bounds of the column
+   void _fitStoredColStatus(int i);
+
    /// changes matrix entry in row \p i and column \p j to \p val and adjusts basis
    void _changeElementReal(int i, int j, const R& val);
 
